@@ -1,7 +1,9 @@
 /- C13 — trajectories keep every frame, in order, each identical to a single load.
 
    Theorems are about the executable model `Model/Traj.lean` (the definitions the driver runs in the `traj`,
-   `trajc`, `dumpm` and `fchkm` streams).  Per-line field parsing is a parameter: `pa`/`pb` parse an atom / bond
+   `trajc`, `dumpm` and `fchkm` streams).  For each of the six text formats: prefix-consumption law, round trip for
+   every non-empty frame list, malformed-reached, truncated-last at every cut point (XYZ, SDF, PDB, MOL2 against
+   the library's writer; GRO and extended XYZ against the harness's renderer `groRender` / `extRender`).  Per-line field parsing is a parameter: `pa`/`pb` parse an atom / bond
    record, `fa`/`fb` print one, with the round-trip hypothesis `pa (fa a) = some a`; the count lines are printed by
    `showNat` / `fc` with the stated parse hypotheses.  -/
 import Iodata.Lemmas.Traj
@@ -277,11 +279,6 @@ section sdf
 variable {α β : Type} (fc : Nat → Nat → Line) (pa : Line → Option α) (fa : α → Line)
   (pb : Line → Option β) (fb : β → Line)
 
-/-- the counts line is printed so that the reader's column cuts recover both numbers and the V2000 tag -/
-def SdfCountsOk (fc : Nat → Nat → Line) : Prop :=
-  ∀ na nb, pyInt ((fc na nb).take 3) = some (na : Int) ∧ pyInt (((fc na nb).drop 3).take 3) = some (nb : Int) ∧
-    lastWordUpper (fc na nb) = some ['V', '2', '0', '0', '0'] ∧ isBlank (fc na nb) = false
-
 /-- **prefix-consumption law** for SDF: title by position (a title `$$$$` or `M  END` is inside the domain), two
     comment lines, counts, atom and bond blocks, then the search for `$$$$` stops at the record's own terminator. -/
 theorem sdf_prefix_law (hc : SdfCountsOk fc) (ha : ∀ a, pa (fa a) = some a) (hb : ∀ b, pb (fb b) = some b)
@@ -331,8 +328,8 @@ theorem sdf_roundtrip (hc : SdfCountsOk fc) (ha : ∀ a, pa (fa a) = some a) (hb
 /-- **malformed_reached / truncated_last** for SDF: after any number of complete molecules, a block on which
     `load_one` raises (StopIteration because the file ends inside the header, the atom or the bond block; LoadError
     because `$$$$` is missing or the record is not V2000; ValueError for an unreadable count or field) makes the
-    sequence end with LoadError after exactly the complete molecules.  `hbad` is discharged for truncated files by
-    `sdf_cut_header_stops` below and, for every cut point, checked against the real reader by the `trajc` stream. -/
+    sequence end with LoadError after exactly the complete molecules.  `hbad` is discharged for truncated files at every cut point by
+    `sdf_cut_raises` (`sdf_truncated_last` below). -/
 theorem sdf_malformed_reached (hc : SdfCountsOk fc) (ha : ∀ a, pa (fa a) = some a) (hb : ∀ b, pb (fb b) = some b)
     (fs : List (SdfFrame α β)) (hnl : ∀ f ∈ fs, '\n' ∉ f.title)
     (bad : List Line) (hnb : ∃ l ∈ bad, isBlank l = false)
@@ -365,94 +362,215 @@ theorem sdf_cut_header_stops (t : List Line) (ht : 0 < t.length ∧ t.length < 4
   | [a, b], _ => exact ⟨_, by simp [sdfLoadOne]; rfl⟩
   | [a, b, c], _ => exact ⟨_, by simp [sdfLoadOne]; rfl⟩
   | _ :: _ :: _ :: _ :: _, h => simp at h; omega
+
+/-- **truncated_last for SDF, EVERY cut point**: a written file cut after `m` lines of its last record
+    (`0 < m < all`: inside the header, the atom block, the bond block, before `M  END` or before `$$$$`), after any
+    number of complete records: exactly the complete records are yielded, then LoadError.  `hnb`: the cut part holds
+    a non-blank line — always the case from the counts line on (`m ≥ 4`); a cut that leaves only blank lines of the
+    next record (blank title, the two comment lines) is a clean end (`sdf_roundtrip` with `blanks`). -/
+theorem sdf_truncated_last (hc : SdfCountsOk fc) (ha : ∀ a, pa (fa a) = some a) (hb : ∀ b, pb (fb b) = some b)
+    (fs : List (SdfFrame α β)) (hnl : ∀ f ∈ fs, '\n' ∉ f.title) (f : SdfFrame α β) (hf : '\n' ∉ f.title)
+    (m : Nat) (hm0 : 0 < m) (hm : m < (sdfDumpOne fc fa fb f).length)
+    (hnb : ∃ l ∈ (sdfDumpOne fc fa fb f).take m, isBlank l = false) :
+    ∃ ln, loadMany sdfSkel (sdfLoadOne pa pb)
+        (fs.flatMap (sdfDumpOne fc fa fb) ++ (sdfDumpOne fc fa fb f).take m) = ⟨fs.map sdfNorm, .loadError ln⟩ :=
+  sdf_malformed_reached fc pa fa pb fb hc ha hb fs hnl _ hnb
+    (fun ln => sdf_cut_raises fc pa fa pb fb hc ha hb f hf m hm0 hm ln)
+
+/-- from the counts line on the cut part always holds a non-blank line -/
+theorem sdf_cut_nonblank (hc : SdfCountsOk fc) (f : SdfFrame α β) (hf : '\n' ∉ f.title) (m : Nat) (hm : 4 ≤ m) :
+    ∃ l ∈ (sdfDumpOne fc fa fb f).take m, isBlank l = false := by
+  obtain ⟨k, rfl⟩ : ∃ k, m = k + 4 := ⟨m - 4, by omega⟩
+  refine ⟨fc f.atoms.length f.bonds.length, ?_, (hc _ _).2.2.2⟩
+  simp [sdfDumpOne, splitNl_no_nl _ (titleOr_no_nl _ hf)]
 end sdf
 
-/-! ## PDB (writer + reader) -/
+/-! ## GRO and extended XYZ (readers only; the library has no writer for them)
+
+   The round trip is stated against the harness's own renderer of well-formed frames (`groRender`, `extRender`):
+   `loadMany (flatMap specRender fs) = ok (map norm fs)`.  The per-line parsers are parameters: `pt` accepts the
+   title line (GRO: the optional `t=` time stamp must parse; extXYZ: `_parse_title`), `pa` an atom line, `pc` the
+   GRO box line. -/
+
+section gro
+variable {α : Type} (showNat : Nat → Line) (pt : Line → Bool) (pa : Line → Option α) (pc : Line → Bool)
+  (fa : α → Line) (box : Line)
+
+/-- **prefix-consumption law for GRO**: title (any text that passes `pt`: blank, a number, with commas — it is
+    taken by position), count, atom lines, box line -/
+theorem gro_prefix_law (hs : ∀ n, pyInt (showNat n) = some (n : Int)) (ha : ∀ a, pa (fa a) = some a)
+    (hbox : pc box = true) (f : XyzFrame α) (hpt : pt f.title = true) (rest : List Line) (ln : Int) :
+    ∃ ln', groLoadOne pt pa pc ⟨groRender showNat fa box f ++ rest, ln⟩ = .ok (groNorm f) ⟨rest, ln'⟩ :=
+  gro_loadOne_render showNat pt pa pc fa box hs ha hbox f hpt rest ln
+
+/-- **round trip, any number of frames**, trailing blank lines ignored -/
+theorem gro_roundtrip (hs : ∀ n, pyInt (showNat n) = some (n : Int)) (hb : ∀ n, isBlank (showNat n) = false)
+    (ha : ∀ a, pa (fa a) = some a) (hbox : pc box = true) (fs : List (XyzFrame α)) (hne : fs ≠ [])
+    (hpt : ∀ f ∈ fs, pt f.title = true) (blanks : List Line) (hbl : ∀ l ∈ blanks, isBlank l = true) :
+    loadMany groSkel (groLoadOne pt pa pc) (fs.flatMap (groRender showNat fa box) ++ blanks) =
+      ⟨fs.map groNorm, .done⟩ :=
+  loadMany_blocks_then_end .peekPushAll (groLoadOne pt pa pc) (groRender showNat fa box) groNorm
+    (fun f => pt f.title = true) (gro_render_ne showNat fa box)
+    (fun f hf rest ln first => gro_step showNat pt pa pc fa box hs hb ha hbox f hf rest ln first)
+    fs hne hpt blanks (fun ln => by simp [runPeek, collectGo_none blanks [] ln hbl])
+
+/-- **malformed_reached**: complete frames, then lines (not all blank) on which `load_one` raises — a bad count, an
+    unparsable atom or box line, a bad time stamp, the end of the file: the complete frames, then LoadError -/
+theorem gro_malformed_reached (hs : ∀ n, pyInt (showNat n) = some (n : Int)) (hb : ∀ n, isBlank (showNat n) = false)
+    (ha : ∀ a, pa (fa a) = some a) (hbox : pc box = true) (fs : List (XyzFrame α))
+    (hpt : ∀ f ∈ fs, pt f.title = true) (bad : List Line) (hnb : ∃ l ∈ bad, isBlank l = false)
+    (hbad : ∀ ln, ∃ e s, groLoadOne pt pa pc ⟨bad, ln⟩ = .raise e s) :
+    ∃ ln, loadMany groSkel (groLoadOne pt pa pc) (fs.flatMap (groRender showNat fa box) ++ bad) =
+      ⟨fs.map groNorm, .loadError ln⟩ :=
+  loadMany_blocks_then_bad .peekPushAll (groLoadOne pt pa pc) (groRender showNat fa box) groNorm
+    (fun f => pt f.title = true) (gro_render_ne showNat fa box)
+    (fun f hf rest ln first => gro_step showNat pt pa pc fa box hs hb ha hbox f hf rest ln first)
+    fs hpt bad (fun ln first => peekPushAll_go ⟨bad, ln⟩ first hnb) hbad
+
+/-- **truncated_last, every cut point** (`hnb`: the cut part is not only a blank title line) -/
+theorem gro_truncated_last (hs : ∀ n, pyInt (showNat n) = some (n : Int)) (hb : ∀ n, isBlank (showNat n) = false)
+    (ha : ∀ a, pa (fa a) = some a) (hbox : pc box = true) (fs : List (XyzFrame α))
+    (hpt : ∀ f ∈ fs, pt f.title = true) (f : XyzFrame α) (hf : pt f.title = true) (m : Nat) (hm0 : 0 < m)
+    (hm : m < (groRender showNat fa box f).length)
+    (hnb : ∃ l ∈ (groRender showNat fa box f).take m, isBlank l = false) :
+    ∃ ln, loadMany groSkel (groLoadOne pt pa pc)
+        (fs.flatMap (groRender showNat fa box) ++ (groRender showNat fa box f).take m) =
+      ⟨fs.map groNorm, .loadError ln⟩ :=
+  gro_malformed_reached showNat pt pa pc fa box hs hb ha hbox fs hpt _ hnb (fun ln => by
+    obtain ⟨s, h⟩ := gro_cut_stops showNat pt pa pc fa box hs ha f hf m hm0 hm ln
+    exact ⟨_, _, h⟩)
+
+/-- from the count line on the cut part holds a non-blank line -/
+theorem gro_cut_nonblank (hb : ∀ n, isBlank (showNat n) = false) (f : XyzFrame α) (m : Nat) (hm : 2 ≤ m) :
+    ∃ l ∈ (groRender showNat fa box f).take m, isBlank l = false := by
+  obtain ⟨k, rfl⟩ : ∃ k, m = k + 2 := ⟨m - 2, by omega⟩
+  exact ⟨showNat f.atoms.length, by simp [groRender], hb _⟩
+end gro
+
+section ext
+variable {α : Type} (showNat : Nat → Line) (pt : Line → Bool) (pa : Line → Option α) (fa : α → Line)
+
+/-- **prefix-consumption law for extended XYZ**: `load_one` reads the count and the title line, parses the title,
+    pushes both back and lets the XYZ reader consume the frame -/
+theorem extxyz_prefix_law (hs : ∀ n, pyInt (showNat n) = some (n : Int)) (ha : ∀ a, pa (fa a) = some a)
+    (f : XyzFrame α) (hpt : pt f.title = true) (rest : List Line) (ln : Int) :
+    ∃ ln', extLoadOne pt pa ⟨extRender showNat fa f ++ rest, ln⟩ = .ok (extNorm f) ⟨rest, ln'⟩ :=
+  ext_loadOne_render showNat pt pa fa hs ha f hpt rest ln
+
+theorem extxyz_roundtrip (hs : ∀ n, pyInt (showNat n) = some (n : Int)) (hb : ∀ n, isBlank (showNat n) = false)
+    (ha : ∀ a, pa (fa a) = some a) (fs : List (XyzFrame α)) (hne : fs ≠ [])
+    (hpt : ∀ f ∈ fs, pt f.title = true) (blanks : List Line) (hbl : ∀ l ∈ blanks, isBlank l = true) :
+    loadMany xyzSkel (extLoadOne pt pa) (fs.flatMap (extRender showNat fa) ++ blanks) = ⟨fs.map extNorm, .done⟩ :=
+  loadMany_blocks_then_end .skipBlank (extLoadOne pt pa) (extRender showNat fa) extNorm
+    (fun f => pt f.title = true) (ext_render_ne showNat fa)
+    (fun f hf rest ln first => ext_step showNat pt pa fa hs hb ha f hf rest ln first)
+    fs hne hpt blanks (fun ln => by simp [runPeek, skipBlank_eof blanks ln hbl])
+
+theorem extxyz_malformed_reached (hs : ∀ n, pyInt (showNat n) = some (n : Int))
+    (hb : ∀ n, isBlank (showNat n) = false) (ha : ∀ a, pa (fa a) = some a) (fs : List (XyzFrame α))
+    (hpt : ∀ f ∈ fs, pt f.title = true) (l : Line) (t : List Line) (hl : isBlank l = false)
+    (hbad : ∀ ln, ∃ e s, extLoadOne pt pa ⟨l :: t, ln⟩ = .raise e s) :
+    ∃ ln, loadMany xyzSkel (extLoadOne pt pa) (fs.flatMap (extRender showNat fa) ++ l :: t) =
+      ⟨fs.map extNorm, .loadError ln⟩ :=
+  loadMany_blocks_then_bad .skipBlank (extLoadOne pt pa) (extRender showNat fa) extNorm
+    (fun f => pt f.title = true) (ext_render_ne showNat fa)
+    (fun f hf rest ln first => ext_step showNat pt pa fa hs hb ha f hf rest ln first)
+    fs hpt (l :: t) (fun ln first => skipBlank_go l t ln first hl) hbad
+
+/-- **truncated_last, every cut point** -/
+theorem extxyz_truncated_last (hs : ∀ n, pyInt (showNat n) = some (n : Int))
+    (hb : ∀ n, isBlank (showNat n) = false) (ha : ∀ a, pa (fa a) = some a) (fs : List (XyzFrame α))
+    (hpt : ∀ f ∈ fs, pt f.title = true) (f : XyzFrame α) (hf : pt f.title = true) (m : Nat) (hm0 : 0 < m)
+    (hm : m < (extRender showNat fa f).length) :
+    ∃ ln, loadMany xyzSkel (extLoadOne pt pa)
+        (fs.flatMap (extRender showNat fa) ++ (extRender showNat fa f).take m) = ⟨fs.map extNorm, .loadError ln⟩ := by
+  obtain ⟨k, rfl⟩ : ∃ k, m = k + 1 := ⟨m - 1, by omega⟩
+  have hshape : (extRender showNat fa f).take (k + 1) =
+      showNat f.atoms.length :: (f.title :: f.atoms.map fa).take k := by simp [extRender]
+  have hcut := fun ln => ext_cut_stops showNat pt pa fa hs ha f hf (k + 1) hm0 hm ln
+  rw [hshape] at hcut ⊢
+  exact extxyz_malformed_reached showNat pt pa fa hs hb ha fs hpt _ _ (hb _) (fun ln => by
+    obtain ⟨s, h⟩ := hcut ln
+    exact ⟨_, _, h⟩)
+end ext
+
+/-! ## PDB (writer + reader)
+
+   A frame is recognised by the reader through its ATOM/HETATM records only: TITLE and COMPND records are collected,
+   every other record is passed over, and a record starting with `END` (`END`, `ENDMDL`) ends the frame only after
+   an atom record was read.  Theorems are stated for frames in the general form `PdbBlock` (`Lemmas/Traj.lean`):
+   passed-over lines, TITLE / COMPND records with continuation numbers as written by `_dump_multiline_str`,
+   passed-over lines (`MODEL n`), ATOM records, CONECT records, an `END…` record.  `dump_one` writes the instance
+   `pdbBlockOfObj` (`pdbBlockLines_ofObj`), trajectories of other programs the instance `pdbModelBlock`.
+
+   DOMAIN.  A frame WITHOUT ATOM/HETATM record is outside: it is not a molecule for the reader — its TITLE records
+   and its END are absorbed by the next frame (`pdb_empty_frame_merged_violated` below: two frames written, one
+   read), or, at the end of the file, by the "Molecule could not be read" that ends the loop.  That tolerant end is
+   needed for every well-formed file: after the last frame's END (and after the END / MASTER records that follow the
+   last ENDMDL) `load_one` finds no atom record, raises LoadError, and `load_many` returns because a frame was read
+   (`except LoadError: if nframe == 0: raise; return`). -/
 
 section pdb
 variable {α β : Type} (pa : Line → Option α) (fa : α → Line) (pb : Line → Option β) (fb : β → Line)
 
-/-- **prefix-consumption law** for PDB.  Domain: at least one atom (see `pdb_empty_frame_merged_violated`),
-    single-line title and compound (FULL STATEMENT, not proved: also for multi-line titles/compounds with fewer
-    than 99 998 lines, where the continuation prefix `TITLE` + `str(i+2).rjust(5)` + `' '` is stripped again by
-    `line[10:].strip()`; the `traj:pdb` stream exercises those). -/
+/-- **prefix-consumption law** for a PDB frame in general form: followed by anything, it is read back as
+    `pdbBlockFrame b` (title / compound lines stripped, continuation numbers removed by `line[10:]`) and exactly its
+    lines are consumed. -/
+theorem pdb_frame_law (ha : ∀ a, pa (pATOM ++ [' ', ' '] ++ fa a) = some a)
+    (hb : ∀ b, pb (pCONECT ++ fb b) = some b) (b : PdbBlock α β) (hok : PdbBlockOk b) (rest : List Line) (ln : Int) :
+    ∃ ln', pdbLoadOne pa pb ⟨pdbBlockLines fa fb b ++ rest, ln⟩ = .ok (pdbBlockFrame b) ⟨rest, ln'⟩ :=
+  pdb_block_law pa fa pb fb ha hb b hok rest ln
+
+/-- the same for a frame written by `dump_one`, multi-line title and compound included -/
 theorem pdb_prefix_law (ha : ∀ a, pa (pATOM ++ [' ', ' '] ++ fa a) = some a)
-    (hb : ∀ b, pb (pCONECT ++ fb b) = some b) (o : PdbObj α β) (hat : o.atoms ≠ [])
-    (hnl : '\n' ∉ o.title) (hcn : ∀ c, o.compnd = some c → '\n' ∉ c) (rest : List Line) (ln : Int) :
+    (hb : ∀ b, pb (pCONECT ++ fb b) = some b) (o : PdbObj α β) (hd : PdbDom o) (rest : List Line) (ln : Int) :
     ∃ ln', pdbLoadOne pa pb ⟨pdbDumpOne fa fb o ++ rest, ln⟩ = .ok (pdbNorm o) ⟨rest, ln'⟩ := by
-  obtain ⟨title, compnd, atoms, conects⟩ := o
-  simp only at hat hnl hcn
-  have hT : splitNl (titleOr title) = [titleOr title] := splitNl_no_nl _ (titleOr_no_nl _ hnl)
-  have hfound : (false || !atoms.isEmpty) = true := by
-    cases atoms with
-    | nil => exact absurd rfl hat
-    | cons _ _ => rfl
-  cases compnd with
-  | none =>
-    obtain ⟨ln1, h1⟩ := pdbGo_atoms pa fa pb ha atoms
-      (conects.map (fun b => pCONECT ++ fb b) ++ (pEND :: rest)) (ln + 1) ⟨[] ++ [strip (titleOr title)], [], [], [], false⟩ false
-    obtain ⟨ln2, h2⟩ := pdbGo_conects pa pb fb hb conects (pEND :: rest) ln1
-      ⟨[] ++ [strip (titleOr title)], [], [] ++ atoms, [], false⟩ (false || !atoms.isEmpty)
-    refine ⟨ln2 + 1, ?_⟩
-    simp only [pdbLoadOne, pdbDumpOne, hT, pdbMulti, pdbMultiAux, List.append_assoc, List.cons_append,
-      List.nil_append, List.singleton_append, pdbGo_title]
-    simp only [List.nil_append, List.append_assoc, List.cons_append] at h1 h2
-    rw [h1, h2, hfound]
-    simp [pdbGo, pEND, pTITLE, pCOMPND, pATOM, pHETATM, pCONECT, startsWith, pdbNorm, hT]
-  | some c =>
-    have hC : splitNl c = [c] := splitNl_no_nl _ (hcn c rfl)
-    obtain ⟨ln1, h1⟩ := pdbGo_atoms pa fa pb ha atoms
-      (conects.map (fun b => pCONECT ++ fb b) ++ (pEND :: rest)) (ln + 1 + 1)
-      ⟨[] ++ [strip (titleOr title)], [] ++ [strip c], [], [], false⟩ false
-    obtain ⟨ln2, h2⟩ := pdbGo_conects pa pb fb hb conects (pEND :: rest) ln1
-      ⟨[] ++ [strip (titleOr title)], [] ++ [strip c], [] ++ atoms, [], false⟩ (false || !atoms.isEmpty)
-    refine ⟨ln2 + 1, ?_⟩
-    simp only [pdbLoadOne, pdbDumpOne, hT, hC, pdbMulti, pdbMultiAux, List.append_assoc, List.cons_append,
-      List.nil_append, List.singleton_append, pdbGo_title, pdbGo_compnd]
-    simp only [List.nil_append, List.append_assoc, List.cons_append] at h1 h2
-    rw [h1, h2, hfound]
-    simp [pdbGo, pEND, pTITLE, pCOMPND, pATOM, pHETATM, pCONECT, startsWith, pdbNorm, hT, hC]
+  have := pdb_block_law pa fa pb fb ha hb (pdbBlockOfObj o) (pdbBlockOk_ofObj o hd) rest ln
+  rwa [pdbBlockLines_ofObj, pdbBlockFrame_ofObj] at this
 
-theorem pdb_dump_ne (o : PdbObj α β) : pdbDumpOne fa fb o ≠ [] := by
-  simp [pdbDumpOne]
+/-- **round trip for PDB frames in general form** (written by `dump_one`, or MODEL/ENDMDL frames of other
+    programs), any number of them, followed by records that carry no atom (END, MASTER, blank lines): after the
+    last frame `load_one` raises "Molecule could not be read" and — a frame having been read — the loop returns. -/
+theorem pdb_blocks_roundtrip (ha : ∀ a, pa (pATOM ++ [' ', ' '] ++ fa a) = some a)
+    (hb : ∀ b, pb (pCONECT ++ fb b) = some b) (bs : List (PdbBlock α β)) (hne : bs ≠ [])
+    (hd : ∀ b ∈ bs, PdbBlockOk b) (trail : List Line)
+    (htr : ∀ l ∈ trail, startsWith pATOM l = false ∧ startsWith pHETATM l = false ∧ startsWith pCONECT l = false) :
+    loadMany pdbSkel (pdbLoadOne pa pb) (bs.flatMap (pdbBlockLines fa fb) ++ trail) =
+      ⟨bs.map pdbBlockFrame, .done⟩ := by
+  have htail : ∀ fuel ln, fuel ≥ trail.length + 1 →
+      runLoop pdbSkel (pdbLoadOne pa pb) fuel false ⟨trail, ln⟩ = (([] : List (PdbFrame α β)), GenFinal.ret) := by
+    intro fuel ln hf
+    obtain ⟨ln', hk⟩ := pdbGo_no_atoms pa pb trail ln ⟨[], [], [], [], false⟩ htr
+    cases fuel with
+    | zero => simp at hf
+    | succ fuel => simp [runLoop, pdbSkel, runPeek, pdbLoadOne, hk, findHandler]
+  obtain ⟨r, hr, he⟩ := runLoop_blocks pdbSkel (pdbLoadOne pa pb) (pdbBlockLines fa fb) pdbBlockFrame
+    PdbBlockOk (pdbBlockLines_ne fa fb)
+    (fun b hb' rest ln first => pdb_step pa fa pb fb ha hb b hb' rest ln first)
+    trail (fun r => r = (([] : List (PdbFrame α β)), GenFinal.ret)) htail bs _ 0 true hd (Or.inl hne)
+    (Nat.le_refl _)
+  subst hr
+  simpa [apiFinal] using loadMany_of_runLoop _ _ _ _ _ he
 
-/-- the part of the PDB domain the round trip is proved for -/
-def PdbDom (o : PdbObj α β) : Prop :=
-  o.atoms ≠ [] ∧ '\n' ∉ o.title ∧ ∀ c, o.compnd = some c → '\n' ∉ c
-
-/-- **round trip, any number of frames (`_partial`: single-line titles, see `pdb_prefix_law`)**: the file written
-    by dump_many reads back as the same frames in order; after the last `END` the reader finds no further atom
-    record, `load_one` raises "Molecule could not be read" and — because at least one frame was read — the loop
-    returns. -/
-theorem pdb_roundtrip_partial (ha : ∀ a, pa (pATOM ++ [' ', ' '] ++ fa a) = some a)
+/-- **round trip of dump_many / load_many for PDB, any number of frames**, multi-line titles and compounds
+    included.  Domain `PdbDom`: at least one atom per frame, fewer than 99 999 title lines and 9 999 compound lines. -/
+theorem pdb_roundtrip (ha : ∀ a, pa (pATOM ++ [' ', ' '] ++ fa a) = some a)
     (hb : ∀ b, pb (pCONECT ++ fb b) = some b) (os : List (PdbObj α β)) (hne : os ≠ [])
     (hd : ∀ o ∈ os, PdbDom o) :
     loadMany pdbSkel (pdbLoadOne pa pb) (os.flatMap (pdbDumpOne fa fb)) = ⟨os.map pdbNorm, .done⟩ := by
-  have htail : ∀ fuel ln, fuel ≥ ([] : List Line).length + 1 →
-      runLoop pdbSkel (pdbLoadOne pa pb) fuel false ⟨[], ln⟩ = (([] : List (PdbFrame α β)), GenFinal.ret) := by
-    intro fuel ln hf
-    cases fuel with
-    | zero => simp at hf
-    | succ fuel => simp [runLoop, pdbSkel, runPeek, pdbLoadOne, pdbGo, findHandler]
-  obtain ⟨r, hr, he⟩ := runLoop_blocks pdbSkel (pdbLoadOne pa pb) (pdbDumpOne fa fb) pdbNorm
-    PdbDom (pdb_dump_ne fa fb)
-    (fun o ho rest ln first => by
-      obtain ⟨ln', hl⟩ := pdb_prefix_law pa fa pb fb ha hb o ho.1 ho.2.1 ho.2.2 rest ln
-      exact ⟨_, ln', rfl, hl⟩)
-    [] (fun r => r = (([] : List (PdbFrame α β)), GenFinal.ret)) htail os
-    ((os.flatMap (pdbDumpOne fa fb)).length + 1) 0 true hd (Or.inl hne) (by simp)
-  subst hr
-  have := loadMany_of_runLoop pdbSkel (pdbLoadOne pa pb) (os.flatMap (pdbDumpOne fa fb)) _ _
-    (by simpa using he)
-  simpa [apiFinal] using this
+  have := pdb_blocks_roundtrip pa fa pb fb ha hb (os.map pdbBlockOfObj) (by simpa using hne)
+    (by intro b hb'; simp at hb'; obtain ⟨o, ho, rfl⟩ := hb'; exact pdbBlockOk_ofObj o (hd o ho)) [] (by simp)
+  rw [pdb_flatMap_ofObj, pdb_map_ofObj, List.append_nil] at this
+  exact this
 
-/-- **malformed_reached** for PDB: an unreadable ATOM/HETATM/CONECT record (any exception other than the
-    "no molecule" LoadError) in a later frame is raised as LoadError after the complete frames. -/
-theorem pdb_malformed_reached_partial (ha : ∀ a, pa (pATOM ++ [' ', ' '] ++ fa a) = some a)
-    (hb : ∀ b, pb (pCONECT ++ fb b) = some b) (os : List (PdbObj α β)) (hd : ∀ o ∈ os, PdbDom o)
+/-- **malformed_reached** for PDB: after complete frames, lines on which `load_one` raises anything but its own
+    "Molecule could not be read" (an unreadable ATOM/HETATM/CONECT record) end the sequence with LoadError after
+    exactly the complete frames. -/
+theorem pdb_malformed_reached (ha : ∀ a, pa (pATOM ++ [' ', ' '] ++ fa a) = some a)
+    (hb : ∀ b, pb (pCONECT ++ fb b) = some b) (bs : List (PdbBlock α β)) (hd : ∀ b ∈ bs, PdbBlockOk b)
     (bad : List Line) (hbad : ∀ ln, ∃ s, pdbLoadOne pa pb ⟨bad, ln⟩ = .raise .other s) :
-    ∃ ln, loadMany pdbSkel (pdbLoadOne pa pb) (os.flatMap (pdbDumpOne fa fb) ++ bad) =
-      ⟨os.map pdbNorm, .loadError ln⟩ := by
+    ∃ ln, loadMany pdbSkel (pdbLoadOne pa pb) (bs.flatMap (pdbBlockLines fa fb) ++ bad) =
+      ⟨bs.map pdbBlockFrame, .loadError ln⟩ := by
   have htail : ∀ fuel ln first, fuel ≥ bad.length + 1 →
       EndsRaised (runLoop pdbSkel (pdbLoadOne pa pb) fuel first ⟨bad, ln⟩) := by
     intro fuel ln first hfu
@@ -461,15 +579,87 @@ theorem pdb_malformed_reached_partial (ha : ∀ a, pa (pATOM ++ [' ', ' '] ++ fa
     | zero => simp at hfu
     | succ fuel =>
       exact endsRaised_of (e := .other) (s := s) (by simp [runLoop, pdbSkel, runPeek, hst, findHandler])
-  obtain ⟨r, ⟨hr1, e, s, hr2⟩, he⟩ := runLoop_blocks_any pdbSkel (pdbLoadOne pa pb) (pdbDumpOne fa fb) pdbNorm
-    PdbDom (pdb_dump_ne fa fb)
-    (fun o ho rest ln first => by
-      obtain ⟨ln', hl⟩ := pdb_prefix_law pa fa pb fb ha hb o ho.1 ho.2.1 ho.2.2 rest ln
-      exact ⟨_, ln', rfl, hl⟩)
-    bad EndsRaised htail os _ 0 true hd (Nat.le_refl _)
+  obtain ⟨r, ⟨hr1, e, s, hr2⟩, he⟩ := runLoop_blocks_any pdbSkel (pdbLoadOne pa pb) (pdbBlockLines fa fb)
+    pdbBlockFrame PdbBlockOk (pdbBlockLines_ne fa fb)
+    (fun b hb' rest ln first => pdb_step pa fa pb fb ha hb b hb' rest ln first)
+    bad EndsRaised htail bs _ 0 true hd (Nat.le_refl _)
   refine ⟨s.lineno, ?_⟩
   have := loadMany_of_runLoop _ _ _ _ _ he
   simpa [hr1, hr2, apiFinal] using this
+
+/-- a frame as other programs write trajectories: `MODEL n`, ATOM records, CONECT records, `ENDMDL` -/
+def pdbModelBlock (f : Line × List α × List β) : PdbBlock α β :=
+  ⟨[], [], [], [f.1], f.2.1, f.2.2, ['M', 'D', 'L']⟩
+
+/-- **MODEL / ENDMDL trajectories** (the harness's renderer; the library writes END-terminated frames only): every
+    model is one frame, the `END` after the last `ENDMDL` is absorbed by the tolerant end of the loop. -/
+theorem pdb_models_roundtrip (ha : ∀ a, pa (pATOM ++ [' ', ' '] ++ fa a) = some a)
+    (hb : ∀ b, pb (pCONECT ++ fb b) = some b) (fs : List (Line × List α × List β)) (hne : fs ≠ [])
+    (hd : ∀ f ∈ fs, pdbSkip f.1 = true ∧ f.2.1 ≠ []) :
+    loadMany pdbSkel (pdbLoadOne pa pb) (fs.flatMap (fun f => pdbBlockLines fa fb (pdbModelBlock f)) ++ [pEND]) =
+      ⟨fs.map (fun f => ⟨[], [], f.2.1, f.2.2, true⟩), .done⟩ := by
+  have := pdb_blocks_roundtrip pa fa pb fb ha hb (fs.map pdbModelBlock) (by simpa using hne)
+    (by
+      intro b hb'
+      simp only [List.mem_map] at hb'
+      obtain ⟨f, hf, rfl⟩ := hb'
+      obtain ⟨h1, h2⟩ := hd f hf
+      exact ⟨h2, by simp [pdbModelBlock], by simpa [pdbModelBlock] using h1, by simp [pdbModelBlock],
+        by simp [pdbModelBlock]⟩)
+    [pEND] (by decide)
+  simpa [List.flatMap_map, List.map_map, Function.comp_def, pdbBlockFrame, pdbModelBlock] using this
+
+/-- the loop yields one more frame, flagged with the "END is not found" warning, and ends normally -/
+def PartialEnd (r : List (PdbFrame α β) × GenFinal) : Prop := ∃ g, g.endReached = false ∧ r = ([g], .ret)
+
+/-- **truncated_last** for PDB: a written file cut inside its last frame, after at least one of its ATOM records
+    and before its END record: the complete frames are yielded, then the partial frame WITH the LoadWarning "The
+    END is not found" (`endReached = false`) — never without it. -/
+theorem pdb_truncated_last (ha : ∀ a, pa (pATOM ++ [' ', ' '] ++ fa a) = some a)
+    (hb : ∀ b, pb (pCONECT ++ fb b) = some b) (os : List (PdbObj α β)) (hd : ∀ o ∈ os, PdbDom o)
+    (o : PdbObj α β) (hat : o.atoms ≠ []) (m : Nat) (hlo : (pdbHeader o).length < m)
+    (hm : m < (pdbDumpOne fa fb o).length) :
+    ∃ g, g.endReached = false ∧
+      loadMany pdbSkel (pdbLoadOne pa pb) (os.flatMap (pdbDumpOne fa fb) ++ (pdbDumpOne fa fb o).take m) =
+        ⟨os.map pdbNorm ++ [g], .done⟩ := by
+  have htail : ∀ fuel ln first, fuel ≥ ((pdbDumpOne fa fb o).take m).length + 1 →
+      PartialEnd
+        (runLoop pdbSkel (pdbLoadOne pa pb) fuel first ⟨(pdbDumpOne fa fb o).take m, ln⟩) := by
+    intro fuel ln first hfu
+    obtain ⟨g, ln', hl, hg⟩ := pdb_cut_partial pa fa pb fb ha hb o hat m hlo hm ln
+    have hlen : ((pdbDumpOne fa fb o).take m).length ≥ 1 := by
+      rw [List.length_take]; omega
+    obtain ⟨k, rfl⟩ : ∃ k, fuel = k + 2 := ⟨fuel - 2, by omega⟩
+    refine ⟨g, hg, ?_⟩
+    have h2 : pdbLoadOne pa pb ⟨[], ln'⟩ = .raise .loadError ⟨[], ln' + 1⟩ := by simp [pdbLoadOne, pdbGo]
+    simp [runLoop, pdbSkel, runPeek, hl, h2, findHandler]
+  obtain ⟨r, ⟨g, hg, hr⟩, he⟩ := runLoop_blocks_any pdbSkel (pdbLoadOne pa pb) (pdbBlockLines fa fb)
+    pdbBlockFrame PdbBlockOk (pdbBlockLines_ne fa fb)
+    (fun b hb' rest ln first => pdb_step pa fa pb fb ha hb b hb' rest ln first)
+    ((pdbDumpOne fa fb o).take m) PartialEnd htail (os.map pdbBlockOfObj) _ 0 true
+    (by intro b hb'; simp at hb'; obtain ⟨o', ho, rfl⟩ := hb'; exact pdbBlockOk_ofObj o' (hd o' ho))
+    (Nat.le_refl _)
+  refine ⟨g, hg, ?_⟩
+  subst hr
+  rw [pdb_flatMap_ofObj, pdb_map_ofObj] at he
+  simpa [apiFinal] using loadMany_of_runLoop _ _ _ _ _ he
+
+/-- a written file cut inside the TITLE / COMPND records of its last frame, after at least one complete frame: no
+    atom record of the last frame is in the file; the sequence ends normally after the complete frames -/
+theorem pdb_cut_in_header (ha : ∀ a, pa (pATOM ++ [' ', ' '] ++ fa a) = some a)
+    (hb : ∀ b, pb (pCONECT ++ fb b) = some b) (os : List (PdbObj α β)) (hne : os ≠ []) (hd : ∀ o ∈ os, PdbDom o)
+    (o : PdbObj α β) (m : Nat) (hm : m ≤ (pdbHeader o).length) :
+    loadMany pdbSkel (pdbLoadOne pa pb) (os.flatMap (pdbDumpOne fa fb) ++ (pdbDumpOne fa fb o).take m) =
+      ⟨os.map pdbNorm, .done⟩ := by
+  have := pdb_blocks_roundtrip pa fa pb fb ha hb (os.map pdbBlockOfObj) (by simpa using hne)
+    (by intro b hb'; simp at hb'; obtain ⟨o', ho, rfl⟩ := hb'; exact pdbBlockOk_ofObj o' (hd o' ho))
+    ((pdbDumpOne fa fb o).take m)
+    (by
+      intro l hl
+      rw [pdbDumpOne_split, List.take_append_of_le_length hm] at hl
+      rcases pdbHeader_mem o l (List.mem_of_mem_take hl) with ⟨r, rfl⟩ | ⟨r, rfl⟩ <;>
+        simp [startsWith, pTITLE, pCOMPND, pATOM, pHETATM, pCONECT, List.isPrefixOf])
+  rwa [pdb_flatMap_ofObj, pdb_map_ofObj] at this
 
 /-- a file without any ATOM/HETATM record is rejected (before commit a119425 it yielded zero frames silently) -/
 theorem pdb_no_molecule_rejected (ls : List Line)
@@ -495,6 +685,14 @@ theorem pdb_no_molecule_rejected (ls : List Line)
   obtain ⟨ln', hk⟩ := key ls 0 ⟨[], [], [], [], false⟩ h
   refine ⟨ln', ?_⟩
   simp [loadMany, Lit.ofLines, runLoop, pdbSkel, runPeek, pdbLoadOne, hk, findHandler, apiFinal]
+
+/-- non-vacuity: a two-frame file with a three-line title, a two-line compound, CONECT records (kernel evaluation
+    of the same model; `TITLE     2 ` continuation records are read back without their number) -/
+example : loadMany pdbSkel (pdbLoadOne (fun l => some l) (fun l => some l))
+    ([(⟨['a', '\n', ' ', 'b', '\n', 'c'], some ['x', '\n', 'y'], [['p'], ['q']], [['1']]⟩ : PdbObj Line Line),
+      ⟨[], none, [['r']], []⟩].flatMap (pdbDumpOne id id)) =
+    ⟨[⟨[['a'], ['b'], ['c']], [['x'], ['y']], [pATOM ++ [' ', ' ', 'p'], pATOM ++ [' ', ' ', 'q']], [pCONECT ++ ['1']], true⟩,
+      ⟨[defaultTitle], [], [pATOM ++ [' ', ' ', 'r']], [], true⟩], .done⟩ := by decide
 end pdb
 
 /-! ## Witnesses: the loops before the repairs (commits 634dee3 … 78fd620) violated the property; the loops of
@@ -568,28 +766,147 @@ theorem pdb_empty_frame_merged_violated :
       ⟨[⟨[['A'], ['B']], [], [pATOM ++ [' ', ' ', 'x']], [], true⟩], .done⟩ := by decide
 end witnesses
 
-/-! ## MOL2 (writer + reader) — `_partial`
+/-! ## MOL2 (writer + reader)
 
-   FULL STATEMENT (not proved in general): for every non-empty list `fs` of frames with single-line titles and a
-   counts printer `fc` whose first two words parse back,
-     `loadMany mol2Skel (mol2LoadOne true pa pb) (fs.flatMap (mol2DumpOne fc fa fb)) = ⟨fs.map mol2Norm, .done⟩`,
-   and a cut inside the last molecule gives `⟨(complete frames).map mol2Norm, .loadError _⟩`.
-   What is missing: `mol2.load_one` reads on past its own records up to the next `@<TRIPOS>MOLECULE` (the comment
-   header of the next frame is consumed by the previous `load_one`), so the blocks consumed by the reader are not
-   the blocks written; the induction needs the re-bracketing `head ++ (body ++ head)* ++ body` and a fuel bound for
-   `mol2Go`.  Proved here: the statement for the concrete sequences below by kernel evaluation of the same model
-   (separator-looking titles, with / without / empty bond sections), the truncation outcomes for every cut of a
-   two-frame file, and the loop-level facts; the `traj:mol2` / `trajc:mol2` streams compare the model with the real
-   reader on generated files of up to 50 frames at every cut point. -/
+   `mol2.load_one` does not stop at the end of its own records: its section loop reads on until the next
+   `@<TRIPOS>MOLECULE` record (pushed back) or the end of the file, so the seven comment lines that `dump_one` prints
+   in front of the NEXT frame are consumed by the PREVIOUS frame's `load_one`.  The blocks the reader consumes are
+   therefore not the blocks the writer wrote, and the generic block lemma does not apply.  The invariant used instead
+   (`Lemmas/Traj.lean`, `mol2_runLoop_frames`): the pending lines are
+     comment lines ++ MOLECULE record ++ rest of a written frame ++ complete written frames ++ comment lines ++ tail,
+   where the tail is empty or starts with a MOLECULE record; `load_one` from a MOLECULE record returns `mol2Norm f`
+   and leaves exactly the lines from the next MOLECULE record on (`mol2_prefix_law`).  A line is a comment line
+   (`inert`) when it is empty or its first word is none of the three record tags; both the scan of `load_many` and
+   the section loop of `load_one` pass over such lines. -/
 
 section mol2
+variable {α β : Type} (fc : Nat → Nat → Line) (pa : Line → Option α) (fa : α → Line)
+  (pb : Line → Option β) (fb : β → Line)
+
+/-- **prefix-consumption law of MOL2** in the form the format allows: from the MOLECULE record of a written frame,
+    followed by comment lines and then by nothing or by a further MOLECULE record, `load_one` returns the frame and
+    leaves exactly what starts at that further record.  Titles are taken by position: a title that reads
+    `@<TRIPOS>MOLECULE`, `@<TRIPOS>ATOM` or is blank is inside the domain; the domain excludes multi-line titles. -/
+theorem mol2_prefix_law (hc : Mol2CountsOk fc) (ha : ∀ a, pa (fa a) = some a) (hb : ∀ b, pb (fb b) = some b)
+    (f : Mol2Frame α β) (hnl : '\n' ∉ f.title) (sk : List Line) (hsk : ∀ l ∈ sk, inert l = true)
+    (tl : List Line) (htl : MolStart tl) (ln : Int) :
+    ∃ ln', mol2LoadOne true pa pb ⟨tMOLECULE :: (mol2Body fc fa fb f ++ (sk ++ tl)), ln⟩ =
+      .ok (mol2Norm f) ⟨tl, ln'⟩ :=
+  mol2_loadOne_frame pa pb fc fa fb hc ha hb f hnl sk hsk tl htl ln
+
+/-- a written frame is seven comment lines, the MOLECULE record line and the body -/
+theorem mol2_dump_shape (f : Mol2Frame α β) :
+    mol2DumpOne fc fa fb f = mol2Pre ++ tMOLECULE :: mol2Body fc fa fb f := mol2DumpOne_eq fc fa fb f
+
+/-- **round trip, any number of frames**: the file written by dump_many (optionally followed by comment or blank
+    lines) reads back as exactly the frames, in order, each as its single-frame file would load. -/
+theorem mol2_roundtrip (hc : Mol2CountsOk fc) (ha : ∀ a, pa (fa a) = some a) (hb : ∀ b, pb (fb b) = some b)
+    (fs : List (Mol2Frame α β)) (hne : fs ≠ []) (hnl : ∀ f ∈ fs, '\n' ∉ f.title)
+    (trail : List Line) (htr : ∀ l ∈ trail, inert l = true) :
+    loadMany mol2Skel (mol2LoadOne true pa pb) (fs.flatMap (mol2DumpOne fc fa fb) ++ trail) =
+      ⟨fs.map mol2Norm, .done⟩ := by
+  have hemp : fs.isEmpty = false := by cases fs with | nil => exact absurd rfl hne | cons _ _ => rfl
+  obtain ⟨r, hr, he⟩ := mol2_runLoop_file pa pb fc fa fb hc ha hb trail [] htr (Or.inl rfl)
+    (fun r => r = (([] : List (Mol2Frame α β)), GenFinal.ret)) fs true
+    (fun fuel ln hf => by
+      cases fuel with
+      | zero => simp at hf
+      | succ fuel => simp [runLoop, mol2Skel, runPeek, scanMolGo, hemp])
+    hnl ((fs.flatMap (mol2DumpOne fc fa fb) ++ trail).length + 1) (by simp) 0
+  subst hr
+  have := loadMany_of_runLoop mol2Skel (mol2LoadOne true pa pb) (fs.flatMap (mol2DumpOne fc fa fb) ++ trail) _ _
+    (by simpa using he)
+  simpa [apiFinal] using this
+
+/-- **malformed_reached**: complete frames (also none), comment lines, then a MOLECULE record on which `load_one`
+    raises (whatever the exception: unreadable counts, an unparsable atom or bond record, the end of the file inside
+    the records, an announced but absent BOND section): exactly the complete frames are yielded, then LoadError —
+    the bad frame is neither skipped nor does it end the sequence silently. -/
+theorem mol2_malformed_reached (hc : Mol2CountsOk fc) (ha : ∀ a, pa (fa a) = some a) (hb : ∀ b, pb (fb b) = some b)
+    (fs : List (Mol2Frame α β)) (hnl : ∀ f ∈ fs, '\n' ∉ f.title)
+    (sk : List Line) (hsk : ∀ l ∈ sk, inert l = true) (m : Line) (t : List Line)
+    (hm : (words m).head? = some tMOLECULE)
+    (hbad : ∀ ln, ∃ e s, mol2LoadOne true pa pb ⟨m :: t, ln⟩ = .raise e s) :
+    ∃ ln, loadMany mol2Skel (mol2LoadOne true pa pb) (fs.flatMap (mol2DumpOne fc fa fb) ++ (sk ++ m :: t)) =
+      ⟨fs.map mol2Norm, .loadError ln⟩ := by
+  obtain ⟨r, ⟨hr1, e, s, hr2⟩, he⟩ := mol2_runLoop_file pa pb fc fa fb hc ha hb sk (m :: t) hsk
+    (Or.inr ⟨m, t, rfl, hm⟩) EndsRaised fs true
+    (fun fuel ln hf => by
+      obtain ⟨e, s, hst⟩ := hbad ln
+      cases fuel with
+      | zero => simp at hf
+      | succ fuel =>
+        obtain ⟨e', he'⟩ := runLoop_raise .scanMolecule (mol2LoadOne true pa pb) fuel (true && fs.isEmpty)
+          ⟨m :: t, ln⟩ ⟨m :: t, ln⟩ s e (by simp [runPeek, scanMolGo, hm]) hst
+        exact endsRaised_of he')
+    hnl _ (Nat.le_refl _) 0
+  refine ⟨s.lineno, ?_⟩
+  have := loadMany_of_runLoop _ _ _ _ _ he
+  simpa [hr1, hr2, apiFinal] using this
+
+/-- a written frame cut after `m ≥ 8` lines is the comment lines, the MOLECULE record and a prefix of the body -/
+theorem mol2_dump_take (f : Mol2Frame α β) (m : Nat) (hm : 8 ≤ m) :
+    (mol2DumpOne fc fa fb f).take m = mol2Pre ++ tMOLECULE :: (mol2Body fc fa fb f).take (m - 8) := by
+  obtain ⟨k, rfl⟩ : ∃ k, m = k + 8 := ⟨m - 8, by omega⟩
+  rw [mol2DumpOne_eq]
+  simp [mol2Pre]
+
+/-- **truncated_last**: a file cut inside its last frame — after the frame's MOLECULE record line (`8 ≤ m`) and
+    before its last line — after any number of complete frames (also none): exactly the complete frames are
+    yielded, then LoadError; never a partial frame, never a silent end.  The one cut excluded by `hex` removes only
+    the header line of an EMPTY bond section: what is left is byte for byte a complete written file
+    (`mol2_cut_empty_bond_section`), to which `mol2_roundtrip` applies. -/
+theorem mol2_truncated_last (hc : Mol2CountsOk fc) (ha : ∀ a, pa (fa a) = some a) (hb : ∀ b, pb (fb b) = some b)
+    (fs : List (Mol2Frame α β)) (hnl : ∀ f ∈ fs, '\n' ∉ f.title) (f : Mol2Frame α β) (hf : '\n' ∉ f.title)
+    (m : Nat) (hm8 : 8 ≤ m) (hm : m < (mol2DumpOne fc fa fb f).length)
+    (hex : ¬ (f.bonds = some [] ∧ m + 1 = (mol2DumpOne fc fa fb f).length)) :
+    ∃ ln, loadMany mol2Skel (mol2LoadOne true pa pb)
+        (fs.flatMap (mol2DumpOne fc fa fb) ++ (mol2DumpOne fc fa fb f).take m) = ⟨fs.map mol2Norm, .loadError ln⟩ := by
+  rw [mol2_dump_take fc fa fb f m hm8]
+  have hlen : (mol2DumpOne fc fa fb f).length = (mol2Body fc fa fb f).length + 8 := by
+    rw [mol2DumpOne_eq]; simp [mol2Pre]
+  rw [hlen] at hm hex
+  exact mol2_malformed_reached fc pa fa pb fb hc ha hb fs hnl mol2Pre mol2Pre_inert tMOLECULE _
+    (by rw [words_tMOLECULE]; rfl)
+    (fun ln => mol2_cut_raises pa pb fc fa fb hc ha hb f hf (m - 8) (by omega)
+      (fun h => hex ⟨h.1, by omega⟩) ln)
+
+/-- a cut inside the seven comment lines in front of the last frame (`m ≤ 7`), after at least one complete frame:
+    nothing of the last frame's data is in the file, the sequence ends normally after the complete frames -/
+theorem mol2_cut_in_comment_lines (hc : Mol2CountsOk fc) (ha : ∀ a, pa (fa a) = some a)
+    (hb : ∀ b, pb (fb b) = some b) (fs : List (Mol2Frame α β)) (hne : fs ≠ []) (hnl : ∀ f ∈ fs, '\n' ∉ f.title)
+    (f : Mol2Frame α β) (m : Nat) (hm : m ≤ 7) :
+    loadMany mol2Skel (mol2LoadOne true pa pb)
+        (fs.flatMap (mol2DumpOne fc fa fb) ++ (mol2DumpOne fc fa fb f).take m) = ⟨fs.map mol2Norm, .done⟩ := by
+  apply mol2_roundtrip fc pa fa pb fb hc ha hb fs hne hnl
+  intro l hl
+  have hz : m - mol2Pre.length = 0 := by simp [mol2Pre]; omega
+  rw [mol2DumpOne_eq, List.take_append, hz, List.take_zero, List.append_nil] at hl
+  exact mol2Pre_inert l (List.mem_of_mem_take hl)
+
+/-- the cut excluded in `mol2_truncated_last`: without the header line of its empty bond section the frame is the
+    written form of the same frame without bond section — a complete file -/
+theorem mol2_cut_empty_bond_section (f : Mol2Frame α β) (h : f.bonds = some []) :
+    (mol2DumpOne fc fa fb f).take ((mol2DumpOne fc fa fb f).length - 1) =
+      mol2DumpOne fc fa fb { f with bonds := none } := by
+  have hlen : (mol2DumpOne fc fa fb f).length = (mol2Body fc fa fb f).length + 8 := by
+    rw [mol2DumpOne_eq]; simp [mol2Pre]
+  have hpos : 1 ≤ (mol2Body fc fa fb f).length := by
+    obtain ⟨t, a, b⟩ := f; simp [mol2Body]; omega
+  rw [mol2_dump_take fc fa fb f _ (by omega), hlen, mol2DumpOne_eq,
+    show (mol2Body fc fa fb f).length + 8 - 1 - 8 = (mol2Body fc fa fb f).length - 1 by omega,
+    mol2Body_cut_empty_bonds fc fa fb f h]
+
+/-! concrete sequences by kernel evaluation of the same model (non-vacuity: every hypothesis discharged):
+    separator-looking titles, with / without / empty bond sections, and every cut of a two-frame file -/
+
 def cnt2 (na nb : Nat) : Line := natDigits na ++ [' '] ++ natDigits nb
 
 def mA : Mol2Frame Line Line := ⟨tMOLECULE, [['x']], none⟩                      -- title looks like a record
 def mB : Mol2Frame Line Line := ⟨[], [['y'], ['z']], some [['b']]⟩              -- no title, one bond
 def mC : Mol2Frame Line Line := ⟨[' ', 'E', 'N', 'D', ' '], [['w']], some []⟩  -- padded title, empty bond section
 
-theorem mol2_roundtrip_examples_partial :
+theorem mol2_roundtrip_examples :
     loadMany mol2Skel (mol2LoadOne true anyLine anyLine) ([mA, mB, mC].flatMap (mol2DumpOne cnt2 id id)) =
       ⟨[mA, mB, mC].map mol2Norm, .done⟩ ∧
     loadMany mol2Skel (mol2LoadOne true anyLine anyLine) ([mB].flatMap (mol2DumpOne cnt2 id id)) =
@@ -599,7 +916,7 @@ theorem mol2_roundtrip_examples_partial :
 
 /-- every cut of the two-frame file `[mA, mB]`: the complete frames, then either a clean end (cut before the next
     MOLECULE record or after the last record) or LoadError — never a silent short or partial sequence -/
-theorem mol2_truncation_examples_partial :
+theorem mol2_truncation_examples :
     (List.range 28).all (fun k =>
       let o := loadMany mol2Skel (mol2LoadOne true anyLine anyLine)
         (([mA, mB].flatMap (mol2DumpOne cnt2 id id)).take k)
@@ -631,6 +948,10 @@ theorem mol2_no_molecule_rejected {α β : Type} (pa : Line → Option α) (pb :
       exact ⟨ln', by simp [scanMolGo, hl l (by simp), h']⟩
   obtain ⟨ln', hk⟩ := key ls 0 h
   exact ⟨ln', by simp [loadMany, Lit.ofLines, runLoop, mol2Skel, runPeek, hk, apiFinal]⟩
+
+/-- the library's counts line `f"{natom:5d} {nbonds:6d} {0:6d} {0:6d}"` at sample values satisfies `Mol2CountsOk` -/
+example : words ("    3      2      0      0".toList) = [['3'], ['2'], ['0'], ['0']] ∧
+    pyInt ['3'] = some 3 ∧ pyInt ['2'] = some 2 := by decide
 end mol2
 
 /-! ## FCHK: point / step bookkeeping -/
@@ -692,6 +1013,21 @@ example : pyInt ((sdfCountsLine 999 0).take 3) = some 999 ∧ pyInt (((sdfCounts
   decide
 /-- outside the column capacity the hypothesis `SdfCountsOk` fails (1000 atoms are read back as 100) -/
 example : pyInt ((sdfCountsLine 1000 0).take 3) = some 100 := by decide
+
+/-- instances of the GRO and extended-XYZ statements by evaluation (titles that look like counts or are blank) -/
+example : loadMany groSkel (groLoadOne (fun _ => true) anyLine (fun _ => true))
+    ([(⟨['3'], [['a'], ['b']]⟩ : XyzFrame Line), ⟨[], []⟩, ⟨['w', ',', 't', '=', '1'], [['c']]⟩].flatMap
+      (groRender natDigits id ['9', ' ', '9', ' ', '9']) ++ [[]]) =
+    ⟨[⟨['3'], [['a'], ['b']]⟩, ⟨[], []⟩, ⟨['w'], [['c']]⟩], .done⟩ := by decide
+example : loadMany xyzSkel (extLoadOne (fun _ => true) anyLine)
+    ([(⟨['2'], [['a'], ['b']]⟩ : XyzFrame Line), ⟨[' ', 'x', ' '], []⟩].flatMap (extRender natDigits id)) =
+    ⟨[⟨['2'], [['a'], ['b']]⟩, ⟨['x'], []⟩], .done⟩ := by decide
+/-- a GRO file cut inside its second frame at every cut point -/
+example : (List.range 4).all (fun k =>
+    (loadMany groSkel (groLoadOne (fun _ => true) anyLine (fun _ => true))
+      (groRender natDigits id ['9'] (⟨['A'], [['a']]⟩ : XyzFrame Line) ++
+        (groRender natDigits id ['9'] (⟨['B'], [['b']]⟩ : XyzFrame Line)).take (k + 1) |>.take (4 + k + 1))).final ≠ .done
+      || k == 3) = true := by decide
 
 /-- a complete instance of the XYZ statements with every hypothesis discharged by evaluation -/
 example : loadMany xyzSkel (xyzLoadOne anyLine)
